@@ -23,5 +23,15 @@ func Registry() []*Spec {
 		Quick: map[string]int{"N": 3}, Thorough: map[string]int{"N": 4, "ALLCOMP": 1},
 		Covers: []string{"valid", "invalid"}, UnitDepth: 3,
 		Note: "every byte string of length <= N; reader variants behind a chunking reader (every single split point and byte-by-byte; thorough: every composition); oj.Parse vs ParseReader, Tokenizer+Builder, Tokenizer.Load+Builder, gen.Parser(+Reader)+Simplify, Validator(+Reader), and sen.Parser for valid JSON"})
+	// ---- C05: Get returns exactly what the path denotes
+	add(Spec{Property: "C05", Name: "VerifC05_Get", Pkg: "jp",
+		Quick: map[string]int{"B": 5, "STEP": 3}, Thorough: map[string]int{"FULL": 1, "B": 7, "STEP": 4},
+		Covers: []string{"nonempty", "empty"}, UnitDepth: 5,
+		Note: "jp.Expr.Get vs a reference selector; 7 concrete data shapes with distinct leaves; every fragment kind alone, in inner position and in last position (thorough: also between two fragments and every pair of kinds); Nth full-range symbolic int, slice bounds in [-B,B], step in [-STEP,STEP], union members, 1-byte symbolic keys, filter @.a > c with symbolic c"})
+	// ---- C11: every evaluator and representation agrees with Get
+	add(Spec{Property: "C11", Name: "VerifC11_Agree", Pkg: "jp",
+		Quick: map[string]int{"B": 4, "STEP": 2}, Thorough: map[string]int{"FULL": 1, "B": 6, "STEP": 3},
+		Covers: []string{"nonempty", "empty"}, UnitDepth: 5,
+		Note: "Has, First, FirstFound, Locate (+Get of each located path), Expr.Walk, GetNodes/FirstNode and Get on alt.Generify(data) against Get on the simple data; same data x path space as C05, paths not ending in a bare descent"})
 	return r
 }
